@@ -9,7 +9,7 @@
 (*   ev.big       = 1 iff some value did not fit TLC's integers            *)
 (* Booleans are 0/1.  Index arguments are (i, top): top = 1 means 2^64-i.  *)
 (***************************************************************************)
-EXTENDS Generator
+EXTENDS Interp
 
 CONSTANT PROP      \* the property whose view of the events is judged ("ALL" = every conjunct)
 For(p) == PROP = "ALL" \/ PROP = p
@@ -285,6 +285,23 @@ GenEvOK(ev) ==
      /\ For("C10") => (ev.out = "ok" => \A i \in DOMAIN res : SplValid(res[i]))
      /\ For("C14") => (ev.out = "ok" /\ Has(ev, "grid_shared") => B(ev.grid_shared))
 
+-----------------------------------------------------------------------------
+\* interpolation with the exact solver (C12, C11)
+
+InterpEvOK(ev) ==
+  LET x == SupOf(ev.x)
+      o == ev.order
+      bcs == ev.bcs
+      valid == ArgsValid(x, ev.y, o, bcs)
+      singular == ev.out = "foreign" /\ ev.out_code = "std::exception: singular system"
+  IN /\ For("C14") => SupOf(ev.x_after) = x
+     /\ For("C11") => IF valid THEN ev.out = "ok" \/ singular ELSE Threw(ev, "out")
+     /\ For("C10") => (ev.out = "ok" => SplValid(SplOf(ev.res)))
+     /\ For("C12") => (valid =>
+          IF ev.out = "ok"
+          THEN InterpPost(x, ev.y, o, bcs, SplOf(ev.res)) /\ ProtocolOK(ev.lg, o, SupSize(x))
+          ELSE singular /\ ~KnownSolvable(o, bcs))
+
 SupOps == {"GridNew", "GridFind", "GridAt", "SupNew", "SupRead", "SupIdx", "SupBin", "SupTri"}
 SplOps == {"SplNew", "SplEval", "SplUn", "SplBin", "SplLin"}
 EventOK(ev) == /\ Sane(ev)
@@ -292,5 +309,6 @@ EventOK(ev) == /\ Sane(ev)
                     [] ev.op \in SplOps -> EventOK_Spl(ev)
                     [] ev.op \in {"OpApply", "OpBF"} -> EventOK_Ops(ev)
                     [] ev.op = "Gen" -> GenEvOK(ev)
+                    [] ev.op = "Interp" -> InterpEvOK(ev)
                     [] OTHER -> FALSE
 =============================================================================
